@@ -159,7 +159,10 @@ IsNilC(v) == "nil" \in DOMAIN v
 
 FinishStruct(S, d, acc) ==
   IF acc = Bad THEN Bad
-  ELSE LET val(j) == IF acc[d.fields[j].name] # NoDef THEN acc[d.fields[j].name] ELSE d.fields[j].def
+  ELSE LET \* a field left nil (never seen, or read as a nil container) takes its declared default
+           val(j) == LET a == acc[d.fields[j].name] IN
+                     IF a # NoDef /\ ~IsNilC(a) THEN a
+                     ELSE IF d.fields[j].def # NoDef THEN d.fields[j].def ELSE a
            missingReq == \E j \in 1..Len(d.fields) : d.fields[j].req /\ d.fields[j].def = NoDef /\ acc[d.fields[j].name] = NoDef
            nset == Cardinality({ j \in 1..Len(d.fields) : acc[d.fields[j].name] # NoDef /\ ~IsNilC(acc[d.fields[j].name]) })
            setIdx == { j \in 1..Len(d.fields) : val(j) # NoDef /\ ~IsNilC(val(j)) }
